@@ -6,6 +6,7 @@ package harness
 
 import (
 	"bytes"
+	"encoding/binary"
 	"encoding/hex"
 	"encoding/json"
 	"fmt"
@@ -427,4 +428,71 @@ func JSONOf(v any) []byte {
 		panic(err)
 	}
 	return b
+}
+
+// DeepFingerprint hashes everything reachable from a library object through exported and unexported struct fields,
+// pointers, interfaces, slices, arrays, maps-free: numbers by bit pattern, strings and byte slices by content. Unlike
+// FromStruct it does not consult the schema, so fields added to a message type later are covered too.
+func DeepFingerprint(obj any) uint64 {
+	h := fnv.New64a()
+	var walk func(rv reflect.Value, depth int)
+	var w8 [8]byte
+	put := func(x uint64) {
+		binary.LittleEndian.PutUint64(w8[:], x)
+		h.Write(w8[:])
+	}
+	walk = func(rv reflect.Value, depth int) {
+		if depth > 12 || !rv.IsValid() {
+			return
+		}
+		switch rv.Kind() {
+		case reflect.Ptr, reflect.Interface:
+			if rv.IsNil() {
+				put(0)
+				return
+			}
+			put(1)
+			walk(rv.Elem(), depth+1)
+		case reflect.Struct:
+			for i := 0; i < rv.NumField(); i++ {
+				walk(rv.Field(i), depth+1)
+			}
+		case reflect.Slice:
+			if rv.IsNil() {
+				put(2)
+				return
+			}
+			put(uint64(rv.Len()))
+			if rv.Type().Elem().Kind() == reflect.Uint8 {
+				for i := 0; i < rv.Len(); i++ {
+					h.Write([]byte{byte(rv.Index(i).Uint())})
+				}
+				return
+			}
+			for i := 0; i < rv.Len(); i++ {
+				walk(rv.Index(i), depth+1)
+			}
+		case reflect.Array:
+			for i := 0; i < rv.Len(); i++ {
+				walk(rv.Index(i), depth+1)
+			}
+		case reflect.String:
+			put(uint64(rv.Len()))
+			h.Write([]byte(rv.String()))
+		case reflect.Bool:
+			if rv.Bool() {
+				put(1)
+			} else {
+				put(0)
+			}
+		case reflect.Int, reflect.Int8, reflect.Int16, reflect.Int32, reflect.Int64:
+			put(uint64(rv.Int()))
+		case reflect.Uint, reflect.Uint8, reflect.Uint16, reflect.Uint32, reflect.Uint64, reflect.Uintptr:
+			put(rv.Uint())
+		case reflect.Float32, reflect.Float64:
+			put(math.Float64bits(rv.Float()))
+		}
+	}
+	walk(reflect.ValueOf(obj), 0)
+	return h.Sum64()
 }
